@@ -263,7 +263,11 @@ def array_binop(op, a, b, lineno=None):
             if not (isinstance(bz, int) and bz > 0):
                 ctx().check("%s:div.positive@L%s" % (ctx().fname, lineno), I(b) > 0, "safety", lineno)
         idx = 0 if op == "FloorDiv" else 1
-        return elementwise(lambda x, y: _divmod_noassert(x, y)[idx], a, b, "int", lineno)
+        r = elementwise(lambda x, y: _divmod_noassert(x, y)[idx], a, b, "int", lineno)
+        cb = conc(b) if not is_arr(b) else None
+        if op == "FloorDiv" and isinstance(a, SArr) and isinstance(cb, int) and cb > 0 and isinstance(r, SArr):
+            r.floordiv_of = (a.snapshot(), cb, a.length)
+        return r
     if op in ("BitAnd", "BitOr", "BitXor") and (getattr(a, "kind", None) == "bool" or getattr(b, "kind", None) == "bool"
                                                  or isinstance(a, (bool, z3.BoolRef)) or isinstance(b, (bool, z3.BoolRef))):
         return elementwise(lambda x, y: scalar_binop(op, B(x), B(y), lineno), a, b, "bool", lineno)
@@ -506,6 +510,17 @@ def exclusive_prefix(fa, n, src=None):
     c.assume(Forall(lambda t: Implies(And(t >= 1, t <= I(n)), C(t) == C(t - 1) + I(fa(t - 1))),
                     triggers=[C], name="xsum.rec"))
     cache[key] = (C, fa, nz)
+    fd = getattr(src, "floordiv_of", None)
+    if fd is not None:
+        # engine lemma L8 (pyvc/lemmas.py): if every a(k) is a multiple of c then  prefix(a)(i) == c * prefix(a // c)(i)
+        base_fa, cdiv, nb = fd
+        Cb = exclusive_prefix(base_fa, n)
+        if c.try_prove("%s:prefix.summands.divisible" % c.fname,
+                       Forall(lambda k: Implies(in_range(k, n), _divmod_noassert(base_fa(k), cdiv)[1] == 0)),
+                       "every summand is a multiple of the divisor (premise of the prefix-sum scaling lemma)"):
+            use("engine lemma: prefix sum of (a // c) times c is the prefix sum of a when c divides every a(k) (pyvc/lemmas.py L8)")
+            c.assume(Forall(lambda i: Implies(And(I(i) >= 0, I(i) <= I(n)), Cb(i) == cdiv * C(i)), triggers=[C], name="L8 scaling"))
+            c.assume(Forall(lambda i: Implies(And(I(i) >= 0, I(i) <= I(n)), Cb(i) == cdiv * C(i)), triggers=[Cb], name="L8 scaling'"))
     lin = getattr(src, "linear_of", None)
     if lin is not None:
         # engine lemma L5 (pyvc/lemmas.py): prefix sums are linear:  g = a + c  =>  C_g(i) = C_a(i) + c*i
